@@ -342,6 +342,26 @@ func (e *Enc) next(fr *Frame, st *State, x *ssa.Next) *State {
 	fr.tup[x] = []string{ok, k, v}
 	e.typeFacts(m.Key(), k, false)
 	e.typeFacts(m.Elem(), v, false)
+	// visited protocol: every iteration order is covered. vis is the set of keys produced by earlier
+	// iterations; the next key is new; when the iterator is exhausted every key has been visited.
+	if li := fr.loops[x.Block()]; li != nil {
+		ks := e.d.sortOf(m.Key())
+		vis := li.vis
+		if vis == "" {
+			e.n++
+			vis = fmt.Sprintf("%svis_%d", fr.pfx, e.n)
+			e.d.decl(vis, "("+ks+") Bool")
+		}
+		li.vis, li.visKey, li.visKeySort = vis, k, ks
+		li.visOk = ok
+		e.assume(fmt.Sprintf("(=> %s (not (%s %s)))", ok, vis, k))
+		q := e.fresh("q_vk")
+		e.quant++
+		dom := e.sel(e.view(st, d), d, Loc{mr, q})
+		e.quant--
+		e.assumeG(fmt.Sprintf("(=> (not %s) (forall ((%s %s)) (! (=> (and (not (= %s 0)) %s) (%s %s)) :pattern ((%s %s)))))", ok, q, ks, mr, dom, vis, q, vis, q))
+		e.assumeG(fmt.Sprintf("(forall ((%s %s)) (! (=> (%s %s) (and (not (= %s 0)) %s)) :pattern ((%s %s))))", q, ks, vis, q, mr, dom, vis, q))
+	}
 	// ghost iteration counter for this loop
 	if li := fr.loops[x.Block()]; li != nil && li.iter != "" {
 		lenNow := e.sel(e.view(st, l), l, Loc{mr})
@@ -618,6 +638,14 @@ func (e *Enc) invoke(fr *Frame, st *State, c *ssa.Call, recv string, args []stri
 		vals := append([]ssa.Value{cc.Value}, cc.Args...)
 		e.ufResult(fr, c, "IM_"+typeKey(it)+"_"+m.Name(), all, vals)
 		e.usedTrusted["pure-getter "+typeKey(it)+"."+m.Name()] = true
+		return st
+	}
+	if mine && e.w.readerIfaceMethod(it, m) {
+		// reads the heap but writes nothing: a function of receiver, arguments and the heap version
+		all := append([]string{recv}, args...)
+		vals := append([]ssa.Value{cc.Value}, cc.Args...)
+		e.ufResult(fr, c, fmt.Sprintf("IMv%d_%s_%s", st.ver, typeKey(it), m.Name()), all, vals)
+		e.usedTrusted["reader-method "+typeKey(it)+"."+m.Name()] = true
 		return st
 	}
 	if !mine {
